@@ -88,13 +88,13 @@ fn labels_kernel<const N: usize>() {
     core::mem::forget(hs);
 }
 #[kani::proof]
-#[kani::unwind(9)]
+#[kani::unwind(12)]
 #[kani::stub(crate::utils::fast_hash, stub_fast_hash_rec)]
 fn c16_labels() {
     labels_kernel::<6>();
 }
 #[kani::proof]
-#[kani::unwind(10)]
+#[kani::unwind(12)]
 #[kani::stub(crate::utils::fast_hash, stub_fast_hash_rec)]
 fn c16_labels_t() {
     labels_kernel::<7>();
@@ -143,13 +143,13 @@ fn entity_kernel<const N: usize>() {
     core::mem::forget(es);
 }
 #[kani::proof]
-#[kani::unwind(9)]
+#[kani::unwind(12)]
 #[kani::stub(crate::utils::fast_hash, stub_fast_hash_rec)]
 fn c16_entity() {
     entity_kernel::<6>();
 }
 #[kani::proof]
-#[kani::unwind(10)]
+#[kani::unwind(12)]
 #[kani::stub(crate::utils::fast_hash, stub_fast_hash_rec)]
 fn c16_entity_t() {
     entity_kernel::<7>();
